@@ -5,6 +5,7 @@
 # through DISCOPY_REPO (so /repo itself — which background jobs may be using — is not disturbed).
 # INPLACE=1: apply to /repo itself (git apply), run, and always restore (git checkout -- .).
 set -u
+root=$(cd "$(dirname "$0")/.." && pwd)   # the checkout this script lives in (/verif or a builder worktree)
 d=$(realpath "$1"); shift
 ids="$@"
 if [ -z "$ids" ]; then ids=$(python3 -c "import json,sys; print(json.load(open('$d/meta.json'))['property'])"); fi
@@ -23,7 +24,7 @@ else
   git -C $wt apply "$d/patch.diff"
   export DISCOPY_REPO=$wt
 fi
-cd /verif
+cd "$root"
 export VERIF_NO_EVIDENCE=1
 for id in $ids; do
   for seed in ${SEEDS:-0}; do
